@@ -31,6 +31,8 @@ def installed_closures(prog):
                         out.append((m.group(1), cb, b, s))
     return out
 
+from ..prov import prov as _prov  # noqa: E402
+
 
 def splitter_roles(prog, fn):
     """for a function returning (Vec<Literal>, Vec<Literal>): {tuple index: 'members' | 'complement' | 'mixed'} from the
@@ -76,17 +78,32 @@ def splitter_roles(prog, fn):
                     ty = x.local_ty(c.place["l"])
                     srcs = origins(x, c.place, transparent=())
                     is_flag = any(o.kind in ("param", "upvar", "unknown") or (o.kind == "call" and callee_decl(o.data) in ("core::ops::index::Index::index", "core::iter::traits::iterator::Iterator::next")) for o in srcs) and ty.replace("&", "") == "bool"
-                    is_cmp = any(o.kind == "call" and callee_decl(o.data) in ("core::cmp::PartialEq::eq",) for o in srcs)
+                    cmps = [o for o in srcs if o.kind == "call" and callee_decl(o.data) in ("core::cmp::PartialEq::eq", "core::cmp::PartialEq::ne")]
                     if is_flag:
                         found = "members" if c.is_true() else ("complement" if c.is_false() else None)
-                    elif is_cmp:
-                        # m.value_of(i) == Some(false)  -> true branch = not in range
-                        found = "complement" if c.is_true() else ("members" if c.is_false() else None)
+                    elif cmps:
+                        # m.value_of(i) == Some(false)  -> true branch = not in range; the compared constant and eq / ne decide
+                        o = cmps[0]
+                        consts = set()
+                        for a in o.site.node["args"]:
+                            for e in _prov(prog, x, a):
+                                if e[0] == "agg" and e[1] == "Some" and len(e[2]) == 1 and e[2][0][0] == "const" and isinstance(e[2][0][1], bool):
+                                    consts.add(e[2][0][1])
+                        truth = True if c.is_true() else (False if c.is_false() else None)
+                        if len(consts) == 1 and truth is not None:
+                            k = next(iter(consts))
+                            equal = truth if callee_decl(o.data).endswith("::eq") else not truth
+                            # equal to Some(k): the value is k; different from Some(k): the value is not k (an unassigned variable sides with "not k")
+                            found = ("members" if k else "complement") if equal else ("complement" if k else "members")
+                        else:
+                            found = None
                 pol.add(found)
         if pol == {"members"}:
             roles[i] = "members"
         elif pol == {"complement"}:
             roles[i] = "complement"
+        elif None in pol:
+            roles[i] = "undecided"
         else:
             roles[i] = "mixed:%s" % sorted(str(p) for p in pol)
     return roles
@@ -132,6 +149,9 @@ def rule_blocking(ctx):
                     base = (t, int(str(o.fields[0])) if str(o.fields[0]).isdigit() else None)
         if r.check(base is not None and base[1] is not None, anchor, "no-splitter", "the clause is a component of a splitter's result", "cannot relate the blocking clause to the member / complement split of the current set", a.loc()):
             roles = splitter_roles(prog, base[0])
+            if "undecided" in roles.values():
+                r.ok(anchor, "NOT decided: the membership test guarding the pushes of the splitter %s is not of a recognised form" % base[0].path.rsplit("::", 1)[-1], a.loc())
+                continue
             r.check(roles.get(base[1]) == "complement", anchor, "clause-role:%s" % roles.get(base[1]), "the blocking clause holds the literals of the arguments (range elements) *outside* the current set", "the blocking clause is built from the %s literals instead of the complement: it does not exclude the subsets of the current set" % roles.get(base[1]), a.loc())
             # nothing but the selector is added to the two halves of the split (inside the closure or closures nested in it)
             extra = []
@@ -203,6 +223,10 @@ def rule_blocking(ctx):
             if t is None or t.kind == "closure" or not re.match(r"^\(alloc::vec::Vec<sat::sat_solver::Literal>, alloc::vec::Vec<sat::sat_solver::Literal>\)$", t.ret_ty):
                 continue
             roles = splitter_roles(prog, t)
+            if "undecided" in roles.values():
+                n3 += 1
+                r.ok("%s|same-range-polarity" % b.id, "NOT decided: the membership test of the splitter %s is not of a recognised form" % t.path.rsplit("::", 1)[-1], s.loc())
+                continue
             if sorted(roles.values()) != ["complement", "members"]:
                 continue
             n3 += 1
